@@ -20,8 +20,6 @@ def plan(rng, tier):
     for L in BOUNDARY_L:
         for kind in KINDS:
             ns = sizes_for(kind, L)
-            if q and kind == "list" and L > 49153:
-                ns = []                     # long lists are slow to build under ASan: the 64K boundaries by the other two kinds
             for j, n in enumerate(ns):
                 # the aligned frame for every value; the frame with the open type one bit off for the exact multiples (and all in thorough)
                 flags = [-1] + ([rng.choice([0, 1])] if (L % 16384 == 0 or not q) else [])
